@@ -127,10 +127,14 @@ impl Database {
 
         let current_offset = wal.current_offset();
         let had_frames = current_offset > 0;
+        #[cfg(kahflane_turdb_verif)]
+        crate::verif::crash_point("ckpt.flushed");
 
         if had_frames {
             wal.truncate()?;
         }
+        #[cfg(kahflane_turdb_verif)]
+        crate::verif::crash_point("ckpt.truncated");
 
         Ok(CheckpointInfo {
             frames_checkpointed: total_frames,
